@@ -141,8 +141,8 @@ pub fn run(ctx: &Ctx) -> Report {
         "Oracle: for inputs on which html5ever's token stream equals the reference tokenizer's (otherwise the case is C01's and is counted as excluded), every tag, comment and doctype token's line must equal 1 + the number of LF in the newline-normalised prefix the reference had consumed when it emitted that token; the EOF token's line must equal 1 + the line breaks of the whole input; lines never decrease and never exceed that maximum. Search: (1) every string of length <= L over {< a = \" > & - ! LF CR SPACE} from Data under every partition into chunks; (2) every C01 start (24 cold states, ~100 priming prefixes reaching every tokenizer state) + every suffix of length <= 3 over {LF CR a > SPACE \" - ; =}, under every placement of chunk cuts inside the suffix; (3) random token soup with line breaks (LF, CR, CRLF, doubled) inserted at random rates, >=16-byte runs for the SIMD path, random chunkings, default and exact_errors options. Non-trivial: the reference consumed a line feed in a state other than Data; distinct by hash of (case, chunks).",
     );
     rep.assume("line-number expectation is asserted for tag/comment/doctype/EOF tokens only; character and error tokens are bracketed by monotonicity (their emission point involves look-ahead the standard leaves open)");
-    report_known(ctx, &mut rep, &|v| replay(ctx, v));
-    run_regressions(ctx, &mut rep, &|v| replay(ctx, v));
+    report_known(ctx, &mut rep, &|v| replay(&ctx.strict_clone(), v));
+    run_regressions(ctx, &mut rep, &|v| replay(&ctx.strict_clone(), v));
     let plain = Policy { kind: PolicyKind::AllContinue, cdata: CdataMode::Never };
 
     // (1)
